@@ -11,6 +11,7 @@ from .core import (Arr, BoundMethod, ClassV, ExcInstance, ExcType, Func, Lam, Li
                    RepoModRef, FLOOR)
 
 MODELS = {}
+NAN = Opaque('nan', is_nan=True)      # model R has no NaN: it is carried as an opaque token
 METHODS = {}
 EXISTS = None   # table of external dotted names known to exist (filled by driver)
 
@@ -573,6 +574,12 @@ class Lib:
             raise Unsupported('mask selection on rank %d' % a.ndim)
         self._same_dim(a.shape[0], mask.shape[0])
         n = to_z3(a.shape[0])
+        # the same mask (same object, not written since) selects the same positions: one index map
+        cache = ctx.ghost.setdefault('sel_by_mask', {})
+        ck = (id(mask), id(mask.f))
+        if ck in cache and cache[ck][0] is mask:
+            _, m, sel, inv, msnap = cache[ck]
+            return self._selected(a, m, sel, inv, msnap)
         m = ctx.fresh_int('m')
         sel = ctx.fresh_fun('sel', z3.IntSort(), z3.IntSort())
         inv = ctx.fresh_fun('selinv', z3.IntSort(), z3.IntSort())
@@ -591,11 +598,14 @@ class Lib:
         # m == CNT(mask, n)
         ctx.fact(m == CNT(ArrTerm.of(mask, 'bool'), n))
         msnap = mask.snapshot()
+        cache[ck] = (mask, m, sel, inv, msnap)
+        ctx.ghost.setdefault('selections', {})[m.get_id()] = dict(sel=sel, n=n, mask=msnap, m=m)
+        return self._selected(a, m, sel, inv, msnap)
 
+    def _selected(self, a, m, sel, inv, msnap):
         def mk(src):
             fs = src.f
-            r = Arr((m,), lambda ix: fs((sel(to_z3(ix[0])),)), src.dtype)
-            return r
+            return Arr((m,), lambda ix: fs((sel(to_z3(ix[0])),)), src.dtype)
         r = mk(a)
         if a.fields is not None:
             r.fields = {k: mk(v) for k, v in a.fields.items()}
@@ -696,6 +706,8 @@ class Lib:
     # ----------------------------------------------------- attribute / methods
     def lib_getattr(self, ref, name):
         d = ref.dotted + '.' + name
+        if d in ('numpy.nan', 'numpy.NaN'):
+            return NAN
         if d == 'os.name':
             return 'posix'      # platform assumption (listed in evidence)
         if d == 'datetime.timezone.utc':
@@ -1721,6 +1733,24 @@ def _mentions(t, var):
     return False
 
 
+def _selection_sum_lemma(L, a, st):
+    """lemma L4_sum_over_selection: a sum over a mask selection is the sum over all positions of
+    [mask ? term : 0]  - emitted when the summand reads the selection only through sel(j)"""
+    m = to_z3(a.shape[0])
+    reg = L.ctx.ghost.get('selections', {}).get(m.get_id()) if is_sym(m) else None
+    if reg is None:
+        return
+    j = z3.Int('j!sl')
+    i = z3.Int('i!lam')
+    e = to_real(a.f((j,)))
+    e2 = z3.substitute(e, (reg['sel'](j), i))
+    if _mentions(e2, j):
+        return
+    full = z3.Lambda([i], z3.If(to_z3(reg['mask'].f((i,))), e2, z3.RealVal(0)))
+    L.ctx.fact(st == SUM(full, reg['n']), lemma=True)
+    L.I.used_lemmas.add('L4.count_over_selection')
+
+
 def sum_term(L, a):
     """sum over a 1-d Arr as a z3 term (concrete length: expanded)"""
     n = simp(a.shape[0])
@@ -1749,7 +1779,9 @@ def sum_term(L, a):
         L.I.used_lemmas.add('L1.fibre_sum(add.at)')
         return st
     if a.dtype in FLOAT_DT:
-        return SUM(ArrTerm.of(a, 'real'), to_z3(a.shape[0]))
+        st = SUM(ArrTerm.of(a, 'real'), to_z3(a.shape[0]))
+        _selection_sum_lemma(L, a, st)
+        return st
     if a.dtype == 'int64':
         return ISUM(ArrTerm.of(a, 'int'), to_z3(a.shape[0]))
     if a.dtype == 'bool':
